@@ -112,6 +112,13 @@ class StatementSplitter:
                 return 0
             return 1
 
+        if unified == 'END CASE':
+            # closes a CASE statement; only a counted CASE raised the level
+            if self._in_case:
+                self._in_case -= 1
+                return -1
+            return 0
+
         if unified in ('END IF', 'END FOR', 'END WHILE', 'END LOOP'):
             return -1
 
